@@ -24,7 +24,8 @@ THEOREMS = ['C02_refsem_deterministic', 'C02_fuel_monotone', 'C02_limit_monotone
             'C02_field_function_desugars', 'C02_paren_transparent', 'C02_dollar_is_outermost_self', 'C02_desugar_eq_run',
             'C02_ne_is_not_eq', 'C02_assert_is_if_error', 'C02_assert_true_transparent', 'C02_if_true', 'C02_if_false',
             'C02_error_message_string', 'C02_error_message', 'C02_assert_message', 'C02_assert_no_message',
-            'C02_defaults_see_all_params', 'C02_named_positional_disjoint', 'C02_nonvacuous']
+            'C02_defaults_see_all_params', 'C02_named_positional_disjoint', 'C02_nonvacuous',
+            'C02_core_no_static_error', 'C02_static_ok_closed', 'C02_refeval_no_static_error', 'C02_static_nonvacuous']
 ALLOWED_AXIOMS = set()
 TRANSLATORS = []
 
@@ -277,6 +278,11 @@ def compare_programs(run, sides, progs, label, count_nontrivial=True):
         if mc[0] == 'machinery':
             run.violation('model-machinery', 'model driver failed (%s) on %r' % (mc[1], text), {'kind': 'program', 'text': text}, concrete=False)
             continue
+        # K for C02_refeval_no_static_error: a program the implementation accepts statically never yields a
+        # static-kind error (unbound variable / self / super / $) in the model either
+        run.count('statically_accepted_programs')
+        if mc[0] != 'static':
+            run.count('statically_accepted_no_static_error_in_model')
         if mc[0] == 'static':
             run.violation('static-vs-dynamic', 'model rejects statically (%s) what the implementation evaluates: %r' % (mc[2], text),
                           {'kind': 'program', 'text': text}, concrete=False)
